@@ -6,10 +6,11 @@ from . import c08facts
 
 ID = 'C08'
 HERE = os.path.dirname(os.path.abspath(__file__))
-CASES = {'quick': 220, 'thorough': 3000}
+CASES = {'quick': 600, 'thorough': 6000}
 PARALLEL = True
 PROOF_TIMEOUT = 1500
 ALLOWED_AXIOMS = ()
+DEPENDS = ['C04']      # coq/Model/C08.v imports Verif.Model.C04: the engine regenerates Gen/Facts_C04.v first
 RULE = ('random conflict-free programs over routes, views (predicates, derivers, renderers, permissions, csrf), renderers, '
         'security policy, default permission, CSRF options, root/session/request factories, request methods, '
         'notfound/forbidden/exception views, static views, subscribers, tweens; each executed through real Configurators '
@@ -46,16 +47,6 @@ def facts(src):
     _state['sites'] = [s[0] for s in r['sites']]
     _state['phase'] = {s[0]: s[1] for s in r['sites']}
     _state['preds'] = r['preds']
-    # the C04 model is imported: keep its regenerated facts current as well
-    try:
-        from harness.c04 import prop as c04
-        from harness.common import build
-        fr = c04.facts(src)
-        build.write_if_changed(os.path.join(build.COQ, 'Gen', 'Facts_C04.v'), fr['coq'])
-        for p in fr.get('problems', []):
-            r['problems'].append('C04 (imported model): ' + p)
-    except Exception as e:          # pragma: no cover
-        r['problems'].append('C04 facts could not be regenerated: %r' % e)
     return {'coq': r['coq'], 'summary': r['summary'], 'problems': r['problems']}
 
 
@@ -112,6 +103,15 @@ def expand(st, customs):
         return [A('add_view#0', disc, reads=reads, dreads=[('preds', 'view'), ('derivers', '')],
                   writes=[('view', triad(vst))], acc=view_order(vst, customs))]
 
+    if k == 'raw':
+        from .world import RAW_SITES
+        out = []
+        none_disc = ('add_permission#0', 'set_authorization_policy#1', 'add_translation_dirs#0')
+        for site in RAW_SITES[st['call']]:
+            row = T.DECLARED[site]
+            out.append(A(site, None if site in none_disc else ('raw', site), reads=[(f, '') for f in row['reads']],
+                         writes=[(f, '') for f, _ in row['writes']]))
+        return out
     if k == 'route':
         return route(st['name'])
     if k == 'view':
@@ -149,7 +149,7 @@ def expand(st, customs):
 
 
 def _customs(case):
-    return sorted(st['name'] for st in case['stmts'] if st['k'] == 'vpred')
+    return sorted(set(st['name'] for st in case['stmts'] if st['k'] == 'vpred'))
 
 
 def _layout(case):
@@ -206,13 +206,17 @@ def to_wire(case):
     for body in case['variants']:
         nodes, places = _tree(body)
         # custom view predicates enter the predicate list in the order their (phase 1) actions run = declaration order
-        customs = [stmts[i]['name'] for i, _ in places if stmts[i]['k'] == 'vpred']
+        customs = [stmts[i]['name'] for i, _ in places if stmts[i]['k'] == 'vpred' and 'shadow_of' not in stmts[i]]
         pl = []
         for sid, node in places:
             for j, a in enumerate(expand(stmts[sid], customs)):
                 pl.append([sid * 8 + j, node, a['acc']])
         vs.append([nodes, pl])
     return [ws, [num[k] for k in keys], vs]
+
+
+OBSERVED = ('routes', 'riface', 'view', 'renderer', 'policy', 'defperm', 'csrfopts', 'rootf', 'sessf', 'reqf', 'reqext',
+            'preds', 'derivers', 'subs', 'tweens', 'static')
 
 
 def _keyname(k):
@@ -228,12 +232,15 @@ def from_wire(case, raw):
     try:
         flags, vres = raw
         acts, num, discs, keys = _layout(case)
+        raw = set(st['id'] for st in case['stmts'] if st['k'] == 'raw')
         out = []
         for (o, ex, cells, fl) in vres:
             regs = {}
             for k, c in zip(keys, cells):
-                if c:
-                    regs[_keyname(k)] = [x // 8 for x in c]
+                # registrations of the census-only directives are not read back from the registry
+                c = [x // 8 for x in c if x // 8 not in raw]
+                if c and k[0] in OBSERVED:
+                    regs[_keyname(k)] = c
             if o[0] == 0:
                 oc = ['done']
             elif o[0] == 1:
@@ -260,11 +267,18 @@ def valid(case):
         if len(set(ids)) != len(ids) or not case['variants'] or not case['stmts']:
             return False
         seen = set()
+        shadow = {s['id']: s['shadow_of'] for s in case['stmts'] if 'shadow_of' in s}
         for st in case['stmts']:
+            if 'shadow_of' in st:
+                if st['shadow_of'] not in ids or st['shadow_of'] in shadow:
+                    return False
+                continue
             if st['k'] == 'view':
                 key = G.view_key(st)
             elif st['k'] in ('route', 'renderer', 'reqm', 'vpred', 'rpred', 'deriver', 'tween', 'static'):
                 key = (st['k'], st.get('name'))
+            elif st['k'] == 'raw':
+                key = ('raw', st['call'])
             elif st['k'] == 'sub':
                 key = ('sub', st['id'])
             else:
@@ -276,9 +290,11 @@ def valid(case):
         base = None
         for body in case['variants']:
             fl = G.flatten(body)
-            if sorted(fl) != sorted(ids):
+            if sorted(i for i in fl if i not in shadow) != sorted(i for i in ids if i not in shadow):
                 return False
-            sig = [[i for i in fl if cls[i] == c] for c in ('route', 'sub', 'tween')]
+            if len(set(fl)) != len(fl) or not all(i in ids for i in fl) or not _shadows_below(body, shadow):
+                return False
+            sig = [[i for i in fl if cls[i] == c and i not in shadow] for c in ('route', 'sub', 'tween')]
             if base is None:
                 base = sig
             elif sig != base:
@@ -286,6 +302,22 @@ def valid(case):
         return isinstance(case.get('probes'), list)
     except Exception:
         return False
+
+
+def _shadows_below(body, shadow):
+    """every shadow statement sits in an include strictly below the list that holds its main statement"""
+    ok = [True]
+
+    def go(items, owners):
+        here = [it for it in items if isinstance(it, int)]
+        for it in items:
+            if isinstance(it, int):
+                if it in shadow and shadow[it] not in owners:
+                    ok[0] = False
+            else:
+                go(it['inc'], owners | set(i for i in here if i not in shadow))
+    go(body, set())
+    return ok[0]
 
 
 def shrinks(case):
@@ -303,6 +335,8 @@ def shrinks(case):
                 else:
                     out.append({'inc': drop(it['inc'])})
             return out
+        if any(s.get('shadow_of') == i for s in S):
+            continue
         yield dict(case, stmts=[s for s in S if s['id'] != i], variants=[drop(b) for b in case['variants']])
     # drop a variant (keep variant 0)
     for j in range(1, len(case['variants'])):
@@ -356,7 +390,7 @@ def _monitor_report(case, b, acts):
         if ctx[0] == 'disc':
             ok = (op == 'r' and fam in row['disc'])
         elif op == 'r':
-            ok = fam in row['reads'] or fam in wf
+            ok = fam in row['reads'] or fam in wf or fam in T.GUARDS.get(a['site'], ())
         else:
             ok = fam in wf
         if not ok:
@@ -566,7 +600,7 @@ def kinds(case, obs):
                       (w['k'] in ('defperm', 'policy', 'csrf')) or \
                       (w['k'] == 'renderer' and (w['name'] == s.get('renderer') or (w['name'] is None and not s.get('renderer')))) or \
                       (w['k'] == 'vpred' and s.get(w['name']) is not None) or (w['k'] == 'deriver' and s.get('dopt'))
-                if dep and pos[w['id']] > pos[s['id']]:
+                if dep and s['id'] in pos and w['id'] in pos and pos[w['id']] > pos[s['id']]:
                     fwd = True
     if fwd:
         ks.append('forward-reference')
